@@ -327,7 +327,8 @@ pub fn c05(h: &Hist, s: u8, v: &mut Verdicts) {
         if d.ok == Some(true) && !f.reduced.contains(a) && !sh.acts.get(a).map(|x| x.vetoed()).unwrap_or(false) {
             v.fail("C05", format!("store {} (BlockOnFull): accepted action {} was never reduced (lost)", s, id_str(*a)));
         }
-        if d.ok == Some(false) && d.inv < first_stop(h, s).map(|x| x.inv).unwrap_or(INF) {
+        // (a dispatch that returned before any shutdown call was even invoked ran on an open store)
+        if d.ok == Some(false) && d.ret < sh.stops.iter().map(|r| r.inv).min().unwrap_or(INF) {
             v.fail("C05", format!("store {} (BlockOnFull): dispatch of {} was rejected while the store was open", s, id_str(*a)));
         }
     }
